@@ -10,15 +10,48 @@ FROZENSET_GLOB = ("glob", "builtins", "frozenset")
 
 
 class Decompiled:
-    __slots__ = ("status", "src", "pickled", "error", "phase")
+    __slots__ = ("status", "src", "pickled", "error", "phase", "variants")
 
 
-def decompile(data):
+def _variants(data, src):
+    """the decompile as other public paths deliver it: [(label, source)] where it differs from
+    the plain one (which is itself a matter for C13; here the differing text is judged as a
+    decompile in its own right)"""
+    import contextlib
+    import io
+
+    from fickling.analysis import check_safety
+    from fickling.fickle import Interpreter, Pickled
+    from fickling.tracing import Trace
+
+    out = []
+    try:
+        p = Pickled.load(data)
+        p.has_import, p.has_call
+        check_safety(p)
+        list(p.unsafe_imports()), list(p.non_standard_imports())
+        s2 = ast.unparse(p.ast)
+        if s2 != src:
+            out.append(("read from an object that has been analysed first (has_import, check_safety)", s2))
+    except Exception:  # noqa: BLE001
+        pass
+    try:
+        with contextlib.redirect_stdout(io.StringIO()):
+            s3 = ast.unparse(Trace(Interpreter(Pickled.load(data))).run())
+        if s3 != src:
+            out.append(("returned by Trace.run()", s3))
+    except Exception:  # noqa: BLE001
+        pass
+    return out
+
+
+def decompile(data, variants=False):
     """Parse + symbolic-execute + unparse with fickling.  status is 'ok' or
     'refused' (any exception: the property allows refusing with an error)."""
     from fickling.fickle import Pickled
 
     d = Decompiled()
+    d.variants = []
     d.src = None
     d.pickled = None
     d.error = None
@@ -32,6 +65,8 @@ def decompile(data):
         d.phase = "unparse"
         d.src = ast.unparse(tree)
         d.status = "ok"
+        if variants and ("import" in d.src or "_var" in d.src):
+            d.variants = _variants(data, d.src)
     except RecursionError as e:
         d.status = "refused"
         d.error = e
@@ -83,7 +118,7 @@ def missing(vm_counter, src_counter):
 class Outcome:
     """Everything the C03/C05 oracles need about one program."""
 
-    __slots__ = ("ref", "dec", "ex", "kind", "detail")
+    __slots__ = ("ref", "dec", "ex", "kind", "detail", "alts", "via")
 
 
 def examine(data, result_name="result"):
@@ -98,10 +133,17 @@ def examine(data, result_name="result"):
     o.dec = None
     o.ex = None
     o.detail = None
-    o.ref = run_ref(data)
-    if not o.ref.ok:
-        o.kind = "ref-reject"
+    o.alts = []
+    o.via = None
+    # the reference resolves globals as the real unpickler does: Python-2 spellings are renamed
+    # below protocol 3 (fix_imports).  The decompile may show either spelling there (the literal
+    # one, or the module really imported): the stub executor applies the same renaming, so both
+    # denote the same global.  From protocol 3 on nothing is renamed on either side.
+    o.ref = run_ref(data, fix_imports=True)
+    if not o.ref.ok or (o.ref.fc_low and o.ref.fc_high):
+        o.kind = "ref-reject"  # (a PROTO change between two globals: renaming is per opcode)
         return o
+    low = o.ref.fc_high == 0
     try:
         canon_i(o.ref.value)
     except Cyclic:
@@ -110,11 +152,11 @@ def examine(data, result_name="result"):
     except RecursionError:
         o.kind = "ref-reject"
         return o
-    o.dec = decompile(data)
+    o.dec = decompile(data, variants=True)
     if o.dec.status != "ok":
         o.kind = "refused"
         return o
-    o.ex = run_source(o.dec.src)
+    o.ex = run_source(o.dec.src, map_py2=low)
     if not o.ex.ok:
         if o.ex.phase == "recursion":
             o.kind = "ref-reject"
@@ -127,13 +169,36 @@ def examine(data, result_name="result"):
         o.detail = f"decompiled program does not bind {result_name!r}"
         return o
     o.kind = "ran"
+    for label, src in o.dec.variants:
+        ex = run_source(src, map_py2=low)
+        if not ex.ok or result_name not in ex.env:
+            if ex.ok or ex.phase != "recursion":
+                o.kind = "not-runnable"
+                o.via = label
+                o.detail = f"the decompile {label} does not run: {getattr(ex, 'error', None)!r}"
+                o.dec.src = src
+                return o
+            continue
+        o.alts.append((label, src, ex))
     return o
 
 
 def hidden_execution(o):
     """C03 oracle: list of (event, vm_count, decompile_count) the decompile lacks."""
+    lack = _hidden(o, o.ex)
+    if lack:
+        return lack
+    for label, src, ex in o.alts:
+        lack = _hidden(o, ex)
+        if lack:
+            o.via, o.dec.src = label, src
+            return lack
+    return []
+
+
+def _hidden(o, ex):
     vi, vc = vm_events(o.ref)
-    si, sc = src_events(o.ex)
+    si, sc = src_events(ex)
     # imports are compared as sets ("is present"): importing a name is idempotent and a decompile
     # may legitimately show one import statement for a global the VM resolves twice; "at least as
     # many times" is stated for invocations only (a dropped import that matters changes a callee,
@@ -144,15 +209,28 @@ def hidden_execution(o):
 
 def value_mismatch(o, result_name="result"):
     """C05 oracle: None when equal, else a description."""
+    mm = _value_mismatch(o, o.ex, result_name)
+    if mm is not None:
+        return mm
+    for label, src, ex in o.alts:
+        mm = _value_mismatch(o, ex, result_name)
+        if mm is not None:
+            o.via, o.dec.src = label, src
+            mm["via"] = label
+            return mm
+    return None
+
+
+def _value_mismatch(o, ex, result_name):
     try:
         want = canon_i(o.ref.value)
-        got = canon_i(o.ex.env[result_name])
+        got = canon_i(ex.env[result_name])
     except Cyclic:
         return None
     if want != got:
         return {"kind": "value", "vm": _short(want), "decompile": _short(got)}
     _, vc = vm_events(o.ref)
-    _, sc = src_events(o.ex)
+    _, sc = src_events(ex)
     # frozenset has no literal: the FROZENSET opcode is data construction on the VM
     # side but necessarily a `frozenset(...)` expression in source, so calls of the
     # frozenset constructor are not counted in the equality (the value comparison
